@@ -60,6 +60,15 @@ CLAIMED = {
  "C34": ("other", "table extraction of JSON primitive writers and of the generated JSON number/string readers",
          "Decides the writer tables (strconv appenders with matching signedness/base/bit size, NaN/±Inf spellings, UTF-8 test first, base64 StdEncoding envelope, safeSet excludes control bytes, quote and backslash, escape arms, U+2028/9) and the reader tables of the generated Json2Read helpers (ParseInt/ParseUint/ParseFloat with the same signedness and bit size, lexer method for the number form, base64 object as the only object form), plus clone isomorphism of the string/[]byte writers. strconv and the easyjson lexer are trusted; no value is round-tripped.",
          "trusts strconv, encoding/base64, easyjson", "DESIGN.md §3 C34"),
+ "C35": ("other", "must-pass-through, offset-table and who-may-read rules on the packet reader/writer",
+         "Decides that no success path of the packet body/header readers bypasses the CRC comparison, the sequence-number test, the length-range and alignment tests or the zero-padding test; that the CRC operands are header[:12] then body on both sides with the same table; that header fields sit at the same offsets in writer and reader; that sequence counters are bumped exactly once per packet; that the trailer padding rule equals the reader's; and that the connection's reader is consumed only via io.ReadFull. 'Any corrupted byte is detected' is decided only as this necessary structure, not for the cipher or CRC mathematics.",
+         "clause only; trusts hash/crc32, crypto/cipher, io.ReadFull", "DESIGN.md §3 C35"),
+ "C39": ("other", "who-may-call, control-dependence, lockset and acquire/release pairing rules on the server",
+         "Decides that handlers run only from worker.run or the documented inline fallback (guarded by MaxWorkers<=0 or pool exhaustion), that worker goroutines are started only after workerPool.Get admitted one under created<create with mu held, that pool counters are lock-protected, and that request memory is read into only after an error-checked semaphore acquire for the same amount which is released exactly once. Numeric behaviour under load is a schedule property and is not decided.",
+         "clause only; trusts C42 for the semaphore", "DESIGN.md §3 C39"),
+ "C40": ("other", "sibling agreement of hand-inlined header wrappers with the generated codecs, tag-set containment, ordering and who-may-write rules",
+         "Decides that each hand-inlined wrapper in preparePacket/ParseInvokeReq/prepareResponseBody/parseResponseExtra has exactly the wire program of the generated type whose tag it uses; every wrapper tag a writer can emit is handled by the opposite reader; the TL2 marker is written last and required last; duplicates are rejected; actor id, extras, query id and error code/description map one-to-one between struct fields and wire; and the only writes to Request.Extra/ActorID, HandlerContext.RequestExtra/ResponseExtra/actorID and Response.Extra inside pkg/rpc are the 14 triaged ones (decode itself, documented timeout min-rule, context injection only when unset, response mask by request flags). The generated Extra codecs themselves are C01's subject.",
+         "clause only; documented adjustments (timeout min, response flags masked by request flags) are part of the table, not violations", "DESIGN.md §3 C40"),
  "C42": ("other", "lockset + control-dependence (admission guard) + pairing (wake-up before unlock) rules on the semaphore source",
          "Decides that cur/size/waiters are accessed only with mu held in the property's operations, that every non-forced cur += n is control-dependent on size-cur >= n for the same n (fast paths also on an empty queue), that every capacity-raising statement or waiter removal is followed by notifyWaiters before the unlock, and that notifyWaiters admits from the front with cur+=n, Remove, close together. Liveness under the scheduler and fairness are not decided.",
          "clause only; trusts sync.Mutex and container/list", "DESIGN.md §3 C42"),
